@@ -2,13 +2,14 @@
 
 
 class LoopSpec(object):
-    def __init__(self, invariant, havoc=None, havoc_fields=None, scratch=None, name=None, reveal=None):
+    def __init__(self, invariant, havoc=None, havoc_fields=None, scratch=None, name=None, reveal=None, check=None):
         self.invariant = invariant          # fn(L, k) -> Bool ; L = view of locals (+ L.f = frame)
         self.havoc = dict(havoc or {})      # local name -> kind ('real','int','bool','optreal', callable(ctx))
         self.havoc_fields = list(havoc_fields or [])  # paths rooted at a local, e.g. "xAxis.current"
         self.scratch = list(scratch or [])
         self.name = name
         self.reveal = reveal                # fn(L, k) -> list of definitional equations (ops.OpaqueFn.reveal)
+        self.check = check                  # fn(L, k) -> list of (name, formula) obligations after the body of iteration k
 
 
 class Clause(object):
@@ -69,8 +70,8 @@ class Contract(object):
         self.raises_.append((tname, when))
         return self
 
-    def loop(self, ordinal, invariant, havoc=None, havoc_fields=None, scratch=None, reveal=None):
-        self.loops[ordinal] = LoopSpec(invariant, havoc, havoc_fields, scratch, reveal=reveal)
+    def loop(self, ordinal, invariant, havoc=None, havoc_fields=None, scratch=None, reveal=None, check=None):
+        self.loops[ordinal] = LoopSpec(invariant, havoc, havoc_fields, scratch, reveal=reveal, check=check)
         return self
 
     def reveal(self, fn):
